@@ -1,10 +1,10 @@
 """Which programs of family F each tier runs (a stated bound over *programs*; data are unbounded)."""
 from __future__ import annotations
 
-from t2.family import KINDS, QUICK, EOF_KINDS, Program, enumerate_programs, sample_programs, valid_sequence
+from t2.family import KINDS, QUICK, EOF_KINDS, SINGLE_ONLY, Program, enumerate_programs, sample_programs, valid_sequence
 
 # kinds whose symbolic execution is expensive (nested data-dependent loops): only alone or with cheap partners
-HEAVY = {"z_uleb", "d_inner", "b64", "z_i24", "d_i24", "a_inner_2", "dyn", "d_expr", "d_blk", "d_blk2"}
+HEAVY = {"z_uleb", "d_inner", "b64", "z_i24", "d_i24", "a_inner_2", "dyn", "d_expr", "d_expr2", "d_blk", "d_blk2"}
 REJECTED = {"b8_roll"}  # straddling bit-field: must be refused at definition time (checked under C06)
 CHEAP_PARTNERS = ["u8", "u32", "i24"]
 
@@ -70,17 +70,30 @@ def sandwiches():
     ps = []
     i = 0
     for k in ("b8_part", "b16_part"):
-        for q in ("inner", "anon_s", "named_u", "u8", "d_char", "a_u16_3", "e8", "b8_whole", "b32_whole", "bf32_whole", "bi8", "z_char", "uleb"):
+        for q in ("inner", "anon_s", "named_u", "u8", "d_char", "a_u16_3", "e8", "b8_whole", "b32_whole", "bf32_whole", "bi8", "z_char", "uleb", "a_u8_0", "void"):
             for al in (False, True):
                 ps.append(Program([k, q, k], "<>"[i % 2], al))
                 i += 1
     return ps
 
 
+def after_dynamic():
+    """A member of symbolic length followed by a block of static members (aligned and packed): everything the readers
+    assume about the position after a dynamic member."""
+    ps = []
+    i = 0
+    for seq in (["d_char", "a_char_4", "u32"], ["d_char", "u8", "u32"], ["d_u16", "a_u16_3", "u64"], ["z_char", "a_char_4", "u16"],
+                ["d_char", "i24", "u16"], ["uleb", "a_char_4", "u32"]):
+        for al in (False, True):
+            ps.append(Program(seq, "<>"[i % 2], al))
+            i += 1
+    return ps
+
+
 def reduced_programs(seed=0, sample=24):
     """Smaller quick set for the multi-run pipelines: every kind alone (both byte orders, both modes), ordered pairs of
     the reduced alphabet in both modes with the byte order alternating, a few seeded longer sequences."""
-    ps = singles() + dynamic_unions() + sandwiches()
+    ps = singles() + dynamic_unions() + sandwiches() + after_dynamic()
     i = 0
     for a_ in REDUCED:
         for b_ in REDUCED:
@@ -91,7 +104,7 @@ def reduced_programs(seed=0, sample=24):
                     continue
                 ps.append(Program([a_, b_], "<>"[i % 2], al))
                 i += 1
-    light = [k for k in KINDS if k not in HEAVY and k not in REJECTED and k not in EOF_KINDS]
+    light = [k for k in KINDS if k not in HEAVY and k not in REJECTED and k not in EOF_KINDS and k not in SINGLE_ONLY]
     ps += [p for p in sample_programs(light, sample, 3, 4, seed) if _quick_ok(p)]
     return dedupe(ps)
 
@@ -99,10 +112,10 @@ def reduced_programs(seed=0, sample=24):
 def quick_programs(seed=0, sample=40):
     """Quick tier of the relational check: every kind alone (both byte orders, both modes), every ordered pair of the quick
     alphabet in both modes with the byte order alternating between pairs, seeded longer sequences."""
-    ps = singles() + dynamic_unions() + sandwiches()
+    ps = singles() + dynamic_unions() + sandwiches() + after_dynamic()
     for i, p in enumerate(pairs(QUICK, endians=("<",), skip_heavy_aligned=True)):
         ps.append(p if (i // 2) % 2 == 0 else Program(p.kinds, ">", p.align))
-    light = [k for k in KINDS if k not in HEAVY and k not in REJECTED and k not in EOF_KINDS]
+    light = [k for k in KINDS if k not in HEAVY and k not in REJECTED and k not in EOF_KINDS and k not in SINGLE_ONLY]
     ps += [p for p in sample_programs(light, sample, 3, 4, seed) if _quick_ok(p)]
     return dedupe(ps)
 
@@ -111,7 +124,7 @@ def thorough_programs(seed=0, sample=300):
     """Thorough tier: every kind alone, all ordered pairs of the quick alphabet (heavy kinds included, aligned too), every
     kind paired with the cheap partners in both orders, seeded sequences of 3-6 kinds."""
     alpha = [k for k in KINDS if k not in REJECTED]
-    ps = singles() + dynamic_unions() + sandwiches() + pairs(QUICK)
+    ps = singles() + dynamic_unions() + sandwiches() + after_dynamic() + pairs(QUICK)
     for k in alpha:
         for q in CHEAP_PARTNERS + ["char", "inner", "d_char"]:
             for seq in ((k, q), (q, k)):
@@ -119,7 +132,7 @@ def thorough_programs(seed=0, sample=300):
                     for e in ("<", ">"):
                         for al in (False, True):
                             ps.append(Program(list(seq), e, al))
-    light = [k for k in KINDS if k not in HEAVY and k not in REJECTED and k not in EOF_KINDS]
+    light = [k for k in KINDS if k not in HEAVY and k not in REJECTED and k not in EOF_KINDS and k not in SINGLE_ONLY]
     ps += sample_programs(light, sample, 3, 6, seed)
     return dedupe(ps)
 
